@@ -376,7 +376,7 @@ DEMOS = {"API.parse": ["F1"], "API.parse.unwind": ["F1", "F25"], "S.flags": ["F2
          "RG.prefix": ["F4"], "D.front": ["F5"], "G.free": ["F6", "F1"], "G.free.symb_fin": ["F6"], "UB.lex": ["F7", "F9"], "D.codes": ["F8"], "S.codes256": ["F8"],
          "G.create": ["F10"], "P.step.base": ["F13"], "P.restore": ["F13"], "G.ctx": ["F18"], "UB.tset.up": ["F21"], "UB.tset.test": ["F21"]}
 # + demonstration programs written by the independent sub-agents for their seeded changes (API-level, public headers only)
-for k, v in {"RG.prefix": ["S_C15_m1"], "RG.check": ["F27"], "RG.rule": ["F32"], "RG.verdict.native": ["F27"], "D.diff.native": ["F32"], "G.history.native": ["F18", "F6", "F4", "F1"], "RG.intake.native": ["F28"], "G.free": ["S_C14_m2"], "G.create": ["S_C17_m1"], "TOK.find": ["S_C12_m2"], "UB.lex": ["S_C11_m1"], "UB.msg.arg": ["S_C12_m1"],
+for k, v in {"RG.prefix": ["S_C15_m1"], "A.fail.native": ["F33"], "RG.check": ["F27"], "RG.rule": ["F32"], "RG.verdict.native": ["F27"], "D.diff.native": ["F32"], "G.history.native": ["F18", "F6", "F4", "F1"], "RG.intake.native": ["F28"], "G.free": ["S_C14_m2"], "G.create": ["S_C17_m1"], "TOK.find": ["S_C12_m2"], "UB.lex": ["S_C11_m1"], "UB.msg.arg": ["S_C12_m1"],
              "OS.top.add_byte": ["S_C19_m2"], "HT.remove": ["S_C19_m1"], "A.wrap.realloc": ["S_C17_m2"], "D.front": ["S_C17_m3"], "P.step.base": ["S_C04_m1"],
              "T.size.copy": ["S_C04_m2"], "S.oneparse": ["S_C14_m1"], "T.anode_reset": ["S_C13_m1"], "T.free.native": ["S_C13_m2", "F26"], "VLO.grow": ["S_C19_m3"]}.items():
     DEMOS[k] = DEMOS.get(k, []) + v
